@@ -566,6 +566,13 @@ pub fn run_c13(tier: Tier, seed: u64, index: u64, scratch: &Scratch, rec: &mut R
         });
         t.labels.push("INSPECTION-DIGEST-MATCH".into());
     }
+    // one world in twelve (shape 10): after each repetition the same call is made by 24 caller threads at
+    // once — what the library shares between callers must not make their verdicts differ
+    if !shared_sub && !digest_insp && Rng::stream(seed, "c13-shape10").chance(1, 12) {
+        t.concurrent = 24;
+        t.hash_seeds.truncate(3);
+        t.labels.push("CONCURRENT-CALLERS".into());
+    }
     // one world in twelve (shape 9): the link directory held ANOTHER world's files a moment ago — the same
     // paths, the same sizes, time stamps preserved, updated in place — and that world was verified by this
     // process; the present world is verified where those files lay and, on odd repetitions, in a fresh
@@ -621,6 +628,17 @@ pub fn run_c13(tier: Tier, seed: u64, index: u64, scratch: &Scratch, rec: &mut R
                 nf.name = gen::link_name(&sname, &t.keys, k);
                 nf.doc.signers = vec![k];
                 if let crate::world::Body::Link(l) = &mut nf.body {
+                    // (one world in four: the surplus links record one product under a further algorithm as
+                    // well, each with another value — pairwise different digest objects that all share sha256)
+                    if fr.chance(1, 4) && !l.products.is_empty() {
+                        let p = l.products.keys().next().cloned().unwrap();
+                        if let Some(d) = l.products.get_mut(&p) {
+                            d.insert("sha512".into(), gen::sha512_hex(format!("surplus-{e}").as_bytes()));
+                        }
+                        t.root.layout.steps[si].threshold = 2;
+                        t.root.files.push(nf);
+                        continue;
+                    }
                     match (shape + e as u64) % 3 {
                         0 => {
                             // another digest for one product: the next step's MATCH no longer holds
